@@ -104,3 +104,51 @@ def pi : Float := 3.141592653589793
 /-- `math.degrees(x)` = `x * (180 / pi)` (CPython's `radToDeg`). -/
 @[inline] def pdegrees (x : Float) : Float := x * (180.0 / 3.141592653589793)
 end Pymeeus.PF
+
+namespace Pymeeus.PF
+/-! Additions for the Angle model (C03/C04). -/
+
+/-- `10 ** n` as an exact rational. -/
+def pow10 (n : Int) : Rat :=
+  if n ≥ 0 then ((10 ^ n.toNat : Nat) : Rat) else 1 / ((10 ^ (-n).toNat : Nat) : Rat)
+
+/-- CPython `round(x, n)` for a finite double (`double_round`, dtoa mode 3 + strtod): the exact
+    binary value is rounded half-even to `n` decimals and the decimal result is converted to the
+    nearest double; the sign of a zero result is the sign of `x`.  (CPython raises OverflowError
+    if the result is not finite; not reachable for |x| < 1e300.) -/
+def proundn (x : Float) (n : Int) : Float :=
+  if x.isNaN || x.isInf then x else
+  let q := toRat x
+  let p := pow10 n
+  let y := q * p
+  let f := y.floor
+  let r := y - f
+  let k : Int := if r < 1/2 then f else if 1/2 < r then f + 1 else if f % 2 = 0 then f else f + 1
+  if k = 0 then (if x.toBits >>> 63 = 1 then -0.0 else 0.0) else ofRat ((k : Rat) / p)
+
+/-- CPython `float_pow(x, w)` for finite doubles (floatobject.c, special cases in source order).
+    `.zeroDivisionError` for `0.0 ** negative`; `.other` = OverflowError when the result is not
+    finite; `.typeError` stands for "negative base, non-integer exponent": CPython returns a
+    `complex`, which every caller in Angle.py hands to `Angle(...)`, which raises TypeError. -/
+def ppow (x w : Float) : PyRes Float :=
+  let isOdd (v : Float) : Bool := fmod v.abs 2.0 == 1.0
+  if w == 0.0 then .ok 1.0
+  else if x == 0.0 then
+    if w < 0.0 then .error .zeroDivisionError else .ok (if isOdd w then x else 0.0)
+  else if x < 0.0 && w != w.floor then .error .typeError
+  else
+    let neg := x < 0.0 && isOdd w
+    let v := if x < 0.0 then -x else x
+    if v == 1.0 then .ok (if neg then -1.0 else 1.0)
+    else
+      let r := Float.pow v w
+      let r := if neg then -r else r
+      if r.isInf then .error .other else .ok r
+
+/-- `x ** n` for a float `x` and an `int` `n`: the int is converted to a double first. -/
+def ppowi (x : Float) (n : Int) : PyRes Float := ppow x (Float.ofInt n)
+
+/-- Python float `x % y`: ZeroDivisionError for `y == 0`. -/
+def pmodE (x y : Float) : PyRes Float := if y == 0.0 then .error .zeroDivisionError else .ok (pmod x y)
+
+end Pymeeus.PF
